@@ -56,6 +56,9 @@ func checkC01(c *Ctx) {
 	c.importFrom(checkC03, "C01.6", "C03.1", "C03.2", "C03.3", "C03.4", "C03.5", "C03.6", "C03.7")
 	c.importFrom(checkC04, "C01.6", "C04.1", "C04.7")
 	c.importFrom(checkC02, "C01.6", "C02.1", "C02.3", "C02.7")
+	// ancestors reached through parent links are authenticated by their hash only: a block fetched from a peer must be
+	// accepted only if its recomputed hash is the requested one (the network layer's part of C13.1)
+	c13SendersFor(c, "C01.7")
 
 	if commitInner == nil || commit == nil || tryCommit == nil {
 		c.Unresolved("C01.2", "Committer", "anchor missing")
